@@ -1,5 +1,5 @@
 //! C19 bounded stand-in for the string enums whose conversions are WRITTEN BY HAND (not produced by the derive macros, so the
-//! generated Verus units do not see them): `VoipVersionId`, `UriAction`, `TagName`.
+//! generated Verus units do not see them): `VoipVersionId`, `UriAction`, `TagName`, and `JoinRule` (whose string is the `join_rule` field of a JSON object).
 //! For every string of the space: `from(s).as_str() == s` (an unknown value is kept unchanged), conversion is idempotent,
 //! equality of two converted values is equality of the strings, and where the type has serde impls the JSON form of a value
 //! built from a string is that JSON string and deserializing the JSON string gives the value built from the string.
@@ -7,7 +7,7 @@
 //! Space: the specified spellings of each enum, each without its last character and with an extra character, "", "0", "1",
 //! "2", "00", "01", " 1", "a", "m.", "M.FAVOURITE", "u.", "u.x", "é".
 use ruma_common::{matrix_uri::UriAction, VoipVersionId};
-use ruma_events::tag::TagName;
+use ruma_events::{room::join_rules::JoinRule, tag::TagName};
 use serde_json::{json, Value};
 
 use super::Report;
@@ -87,13 +87,44 @@ pub fn run(_tier: &str) -> Report {
     check!(VoipVersionId, "VoipVersionId", &["1"], serde_check!(VoipVersionId));
     check!(UriAction, "UriAction", &["join", "chat"], |_v: &UriAction, _bad: &mut Vec<(u8, String)>| {});
     check!(TagName, "TagName", &["m.favourite", "m.lowpriority", "m.server_notice", "u.work"], serde_check!(TagName));
+    // JoinRule: the string sits in the `join_rule` field of an object (two variants carry more fields); no From<&str>
+    for a in strings(&["invite", "knock", "private", "restricted", "knock_restricted", "public"]) {
+        n += 1;
+        let r = std::panic::catch_unwind(|| -> Vec<String> {
+            let mut bad = vec![];
+            match serde_json::from_value::<JoinRule>(json!({"join_rule": a})) {
+                Err(e) => bad.push(format!("{{\"join_rule\": {a:?}}} is rejected: {e}")),
+                Ok(v) => {
+                    if v.as_str() != a {
+                        bad.push(format!("{{\"join_rule\": {a:?}}} has the string form {:?}", v.as_str()));
+                    }
+                    match serde_json::to_value(&v) {
+                        Ok(j) if j.get("join_rule") == Some(&json!(a)) => match serde_json::from_value::<JoinRule>(j.clone()) {
+                            Ok(d) if d == v => {}
+                            other => bad.push(format!("{j} deserializes to {other:?}, not to {v:?}")),
+                        },
+                        other => bad.push(format!("the join rule {a:?} serializes as {other:?}")),
+                    }
+                }
+            }
+            bad
+        });
+        match r {
+            Err(_) => fail(&mut f_panic, json!({"enum": "JoinRule", "input": a, "observed": "panic"})),
+            Ok(bad) => {
+                for why in bad {
+                    fail(&mut f_json, json!({"enum": "JoinRule", "input": a, "why": why}));
+                }
+            }
+        }
+    }
     // the integer form of the legacy VoIP version
     n += 1;
     if serde_json::to_value(VoipVersionId::V0).ok() != Some(json!(0)) || serde_json::from_value::<VoipVersionId>(json!(0)).ok() != Some(VoipVersionId::V0) || VoipVersionId::V0.as_str() != "0" {
         fail(&mut f_json, json!({"enum": "VoipVersionId", "why": "V0 is not the JSON integer 0"}));
     }
     Report {
-        bound: "3 hand-written string enums (VoipVersionId, UriAction, TagName) x specified spellings, each without its last character and with an extra character, 13 generic strings; all pairs for equality".to_owned(),
+        bound: "4 hand-written string enums (VoipVersionId, UriAction, TagName, JoinRule in its JSON object form) x specified spellings, each without its last character and with an extra character, 13 generic strings; all pairs for equality".to_owned(),
         cases: n,
         obligations: vec![
             ("hand_written_conversions_keep_every_string_and_equality_follows_the_string", n, f_str),
